@@ -1,43 +1,46 @@
 import IdenaModel.Model.PushPull
 import IdenaModel.Drivers.Util
-/-! Driver for channel C20: drives `PushPull.step`.
+/-! Driver for channel C20: drives `PushPull.nodeStep` (one lane per entry type, `PushPull.step` inside a lane).
 
-Op lines (times in ms since the tracker was started):
-`new <delay> <cap> <maxPending> <asFound 0|1>` · `ann p h` · `arr h` · `tick t` · `loop` · `gc` · `dlv` · `exp h` ·
-`fgt h` · `state`.
+Op lines (times in ms since the trackers were started; `T` = push type of the lane):
+`new <maxPending> <asFound 0|1> <T>:<delay>:<cap> …` · `ann T p h` · `arr T h` · `tick t` · `loop T` · `gc T` · `dlv T` ·
+`exp T h` · `fgt T h` · `state T`.  Outputs `kind:type:peer:hash:time`.
 
 Glue that is not in the model: the harness op `loop` lets the real goroutine run until it is parked in `Sleep` again,
-so the driver repeats the model's one-iteration event `loop` until the model's loop sleeps again (bounded; `diverge`
-if it does not); `new` does the same for the goroutine's very first iteration. -/
+so the driver repeats the model's one-iteration event `loop` until the lane's loop sleeps again (bounded; `diverge`
+if it does not); `new` does the same for each goroutine's very first iteration. -/
 namespace IdenaModel.Drv.C20
 open IdenaModel.PushPull IdenaModel.Drv
-
-structure DSt where
-  c : Cfg
-  s : St
 
 def sleeping : Pc → Bool
   | .run => false
   | _ => true
 
-/-- repeat `loop` events until the goroutine sleeps; `none` = did not settle within the fuel -/
-def settle (c : Cfg) : Nat → St → List Out → Option (St × List Out)
-  | 0, _, _ => none
-  | f + 1, s, o =>
-    let r := step c s .loop
-    if sleeping r.1.pc then some (r.1, o ++ r.2) else settle c f r.1 (o ++ r.2)
+def getLane (n : Node) (typ : Nat) : Option Lane := n.find? (fun l => l.typ == typ)
 
-def showOut : Out → String
-  | .imm p h t => s!"imm:{p}:{h}:{t}"
-  | .dec p h t => s!"dec:{p}:{h}:{t}"
-  | .fwd p h t => s!"fwd:{p}:{h}:{t}"
+/-- repeat `loop` events on lane `typ` until its goroutine sleeps; `none` = did not settle within the fuel -/
+def settle (typ : Nat) : Nat → Node → List (Nat × Out) → Option (Node × List (Nat × Out))
+  | 0, _, _ => none
+  | f + 1, n, o =>
+    let r := nodeStep n typ .loop
+    match getLane r.1 typ with
+    | none => none
+    | some l => if sleeping l.st.pc then some (r.1, o ++ r.2) else settle typ f r.1 (o ++ r.2)
+
+def showOut : Nat × Out → String
+  | (ty, .imm p h t) => s!"imm:{ty}:{p}:{h}:{t}"
+  | (ty, .dec p h t) => s!"dec:{ty}:{p}:{h}:{t}"
+  | (ty, .fwd p h t) => s!"fwd:{ty}:{p}:{h}:{t}"
 
 def sizes (s : St) : String :=
   s!"P={s.pending.length} A={s.active.length} Q={s.queue.length}"
 
-def answer (s : St) (o : List Out) : String :=
-  if s.panicked then "panic" else
-  (if o.isEmpty then "-" else " ".intercalate (o.map showOut)) ++ " | " ++ sizes s
+def answer (n : Node) (typ : Nat) (o : List (Nat × Out)) : String :=
+  match getLane n typ with
+  | none => "bad-op"
+  | some l =>
+    if l.st.panicked then "panic" else
+    (if o.isEmpty then "-" else " ".intercalate (o.map showOut)) ++ " | " ++ sizes l.st
 
 def sortMap (m : Map) : Map := m.mergeSort (fun a b => a.1 ≤ b.1)
 
@@ -57,38 +60,67 @@ def loopDue (s : St) : Bool :=
   | .sleep w => decide (w ≤ s.now)
   | .hold _ w => decide (w ≤ s.now)
 
-def stepLine (d : DSt) (line : String) : DSt × String :=
-  let ev (e : Ev) : DSt × String := let r := step d.c d.s e; ({ d with s := r.1 }, answer r.1 r.2)
+def parseLane (mp : Nat) (af : Bool) (tok : String) : Option Lane :=
+  match (tok.splitOn ":").map String.toNat? with
+  | [some ty, some dl, some cp] =>
+    some { typ := ty, cfg := { delay := dl, cap := cp, maxPending := mp, asFound := af }, st := init }
+  | _ => none
+
+def stepLine (n : Node) (line : String) : Node × String :=
+  let ev (typ : Nat) (e : Ev) : Node × String :=
+    match getLane n typ with
+    | none => (n, "bad-op")
+    | some _ => let r := nodeStep n typ e; (r.1, answer r.1 typ r.2)
+  let nat2 (a b : String) (f : Nat → Nat → Node × String) : Node × String :=
+    match a.toNat?, b.toNat? with | some x, some y => f x y | _, _ => (n, "bad-op")
   match splitSp line with
-  | ["new", dl, cp, mp, af] =>
-    match dl.toNat?, cp.toNat?, mp.toNat?, af.toNat? with
-    | some dl, some cp, some mp, some af =>
-      if af > 1 then (d, "bad-op") else
-      let c : Cfg := { delay := dl, cap := cp, maxPending := mp, asFound := af == 1 }
-      match settle c 8 init [] with
-      | some (s, _) => ({ c := c, s := s }, "ok")
-      | none => (d, "diverge")
-    | _, _, _, _ => (d, "bad-op")
-  | ["ann", p, h] => match p.toNat?, h.toNat? with
-    | some p, some h => ev (.announce p h) | _, _ => (d, "bad-op")
-  | ["arr", h] => match h.toNat? with | some h => ev (.arrive h) | none => (d, "bad-op")
-  | ["exp", h] => match h.toNat? with | some h => ev (.expire h) | none => (d, "bad-op")
-  | ["fgt", h] => match h.toNat? with | some h => ev (.forget h) | none => (d, "bad-op")
-  | ["tick", t] => match t.toNat? with | some t => ev (.tick t) | none => (d, "bad-op")
-  | ["gc"] => ev .gc
-  | ["dlv"] => ev .deliver
-  | ["loop"] =>
-    if loopDue d.s then
-      match settle d.c (4 * d.s.pending.length + 16) d.s [] with
-      | some (s, o) => ({ d with s := s }, answer s o)
-      | none => (d, "diverge")
-    else (d, answer d.s [])
-  | ["state"] => (d, showState d.s)
-  | _ => (d, "bad-op")
+  | "new" :: mp :: af :: lanes =>
+    match mp.toNat?, af.toNat? with
+    | some mp, some af =>
+      if af > 1 ∨ lanes.isEmpty then (n, "bad-op") else
+      let ls := lanes.map (parseLane mp (af == 1))
+      if ls.any (·.isNone) then (n, "bad-op") else
+      let node : Node := ls.filterMap id
+      if (node.map (·.typ)).eraseDups.length ≠ node.length then (n, "bad-op") else
+      -- every tracker's loop goroutine runs its first iteration and goes to sleep
+      let r := node.foldl (fun (acc : Option Node) l =>
+        match acc with
+        | none => none
+        | some nd => (settle l.typ 8 nd []).map (·.1)) (some node)
+      match r with
+      | some nd => (nd, "ok")
+      | none => (n, "diverge")
+    | _, _ => (n, "bad-op")
+  | ["ann", ty, p, h] => match ty.toNat? with
+    | some ty => nat2 p h fun p h => ev ty (.announce p h)
+    | none => (n, "bad-op")
+  | ["arr", ty, h] => nat2 ty h fun ty h => ev ty (.arrive h)
+  | ["exp", ty, h] => nat2 ty h fun ty h => ev ty (.expire h)
+  | ["fgt", ty, h] => nat2 ty h fun ty h => ev ty (.forget h)
+  | ["tick", t] => match t.toNat? with
+    | some t => ((nodeStep n 0 (.tick t)).1, "-")
+    | none => (n, "bad-op")
+  | ["gc", ty] => match ty.toNat? with | some ty => ev ty .gc | none => (n, "bad-op")
+  | ["dlv", ty] => match ty.toNat? with | some ty => ev ty .deliver | none => (n, "bad-op")
+  | ["loop", ty] => match ty.toNat? with
+    | none => (n, "bad-op")
+    | some ty =>
+      match getLane n ty with
+      | none => (n, "bad-op")
+      | some l =>
+        if loopDue l.st then
+          match settle ty (4 * l.st.pending.length + 16) n [] with
+          | some (n', o) => (n', answer n' ty o)
+          | none => (n, "diverge")
+        else (n, answer n ty [])
+  | ["state", ty] => match ty.toNat? with
+    | none => (n, "bad-op")
+    | some ty => match getLane n ty with
+      | some l => (n, showState l.st)
+      | none => (n, "bad-op")
+  | _ => (n, "bad-op")
 
 end IdenaModel.Drv.C20
 
 def main : IO Unit :=
-  IdenaModel.Drv.runDriver
-    ({ c := { delay := 10000, cap := 3, maxPending := 20000 }, s := IdenaModel.PushPull.init } : IdenaModel.Drv.C20.DSt)
-    IdenaModel.Drv.C20.stepLine
+  IdenaModel.Drv.runDriver ([] : IdenaModel.PushPull.Node) IdenaModel.Drv.C20.stepLine
